@@ -168,7 +168,7 @@ def cmds_of_term(t):
     return None
 
 
-def subst_copies(ctx, f, node, expr):
+def subst_copies(ctx, f, node, expr, predicates=False):
     """A copy of `expr` in which every local name that is (uniquely, at `node`) a plain copy of a variable or attribute chain is
     replaced by what it copies (`payload = msg.data; if payload:` reads as `if msg.data:`), provided the copied location has
     the same reaching definitions at the copy and at `node` (nothing wrote it in between)."""
@@ -182,6 +182,15 @@ def subst_copies(ctx, f, node, expr):
             return None
         v = unawait(d.value)
         k = varkey(v)
+        if not k and predicates and isinstance(v, ast.Call) and not v.keywords and all(isinstance(a, ast.Name) for a in v.args):
+            # a named predicate result (`is_dir = os.path.isdir(p)`, `is_io = isinstance(p, BytesIO)`): the name stands for the test, as long as
+            # its arguments have not been assigned since
+            fn_ = v.func
+            pure = (isinstance(fn_, ast.Name) and fn_.id == "isinstance") or \
+                (isinstance(fn_, ast.Attribute) and isinstance(fn_.value, ast.Attribute) and isinstance(fn_.value.value, ast.Name) and fn_.value.value.id == "os" and fn_.value.attr == "path")
+            if pure and all(df.reaching(node, a.id) == df.reaching_out(d.node, a.id) for a in v.args):
+                return v
+            return None
         if not k:
             return None
         if df.reaching(node, k) != df.reaching_out(d.node, k):
@@ -352,3 +361,11 @@ def decide_under(conds, formula):
     if len(seen) == 1:
         return next(iter(seen))
     return None
+
+
+def equiv_under(conds, e1, e2):
+    """Do the propositional formulas e1 and e2 have the same truth value on every valuation of the atoms that satisfies `conds`?"""
+    import ast as _ast
+    both = _ast.BoolOp(op=_ast.Or(), values=[_ast.BoolOp(op=_ast.And(), values=[e1, e2]),
+                                               _ast.BoolOp(op=_ast.And(), values=[_ast.UnaryOp(op=_ast.Not(), operand=e1), _ast.UnaryOp(op=_ast.Not(), operand=e2)])])
+    return decide_under(conds, both) is True
